@@ -47,6 +47,7 @@ CONSTANTS Alphabet,        \* byte values
 \* the strings ExtraStrings is bound to in the cfg files:
 \*   \5C \5z \4_ \\5C a\41b \zz \\\5z x\5zz 42 007 1a 2b -5 18446744073709551616 a.b  a b"c
 DefaultExtras == {
+    <<45, 48>>, <<45, 48, 48>>, <<110, 117, 108, 108>>, <<118, 111, 105, 100>>, <<116, 114, 117, 101>>, <<120>>, <<99>>, <<108, 97, 98, 101, 108>>, <<68, 73, 76, 111, 99, 97, 116, 105, 111, 110>>, <<68, 73, 69, 120, 112, 114, 101, 115, 115, 105, 111, 110>>, <<71, 101, 110, 101, 114, 105, 99, 68, 73, 78, 111, 100, 101>>, <<68, 73, 70, 105, 108, 101>>,   \* -0 -00 null void true x c label DILocation DIExpression GenericDINode DIFile
     <<37, 115>>, <<37, 37>>, <<97, 37>>, <<37, 33>>, <<37, 100>>, <<49, 48, 48, 37>>,   \* %s %% a% %! %d 100%
     <<92, 53, 67>>,
     <<92, 53, 122>>,
